@@ -5,6 +5,7 @@ import (
 	"encoding/json"
 	"fmt"
 	"reflect"
+	"regexp"
 	"strings"
 
 	"github.com/formancehq/stack/libs/go-libs/bun/bunpaginate"
@@ -152,6 +153,20 @@ func filterAccountAddressOnTransactions(address string, source, destination bool
 		}
 		return strings.Join(parts, " or ")
 	}
+}
+
+// addressFilterRegexp is the grammar of an address filter: account segments separated by ':', where an empty
+// segment stands for "any segment". filterAccountAddress and filterAccountAddressOnTransactions format the filter
+// into the SQL text, so nothing else may reach them.
+var addressFilterRegexp = regexp.MustCompile(
+	"^(?:" + ledger.AccountSegmentRegex + ")?(?::(?:" + ledger.AccountSegmentRegex + ")?)*$")
+
+func checkAddressFilter(column, address string) error {
+	if !addressFilterRegexp.MatchString(address) {
+		return newErrInvalidQuery("invalid address filter for column '%s': segments must match %s or be empty",
+			column, ledger.AccountSegmentRegex)
+	}
+	return nil
 }
 
 func filterPIT(pit *ledger.Time, column string) func(query *bun.SelectQuery) *bun.SelectQuery {
